@@ -69,6 +69,7 @@ func TestProp_Routing(t *testing.T) {
 		startDone := make(chan error, 1)
 		go func() { startDone <- split.Start() }()
 
+		interesting := false
 		// topology; some sub-listeners are registered LATE, after a first wave of clients
 		// has already been routed (or closed for want of a listener)
 		registered := map[string]bool{} // name -> native
@@ -134,6 +135,19 @@ func TestProp_Routing(t *testing.T) {
 				}
 			}()
 		}
+		// a request for a sub-listener that the library REFUSES (an option that does not
+		// parse) registers nothing: the name stays what it was - unregistered until, maybe,
+		// a later valid request registers it with that request's settings
+		badOpt := func(*nodeenrollment.Options) error { return errors.New("option that cannot be applied") }
+		for _, name := range append(append([]string{}, specific...), nodenet.AuthenticatedNonSpecificNextProto) {
+			if rapid.IntRange(0, 3).Draw(t, "refusedRequestFor-"+name) == 0 {
+				if ln, err := split.GetListener(name, badOpt); err == nil || ln != nil {
+					vkit.Violate(t, prop, "C17/get-listener-accepted-bad-option", fmt.Sprintf("GetListener(%q) with an option that fails returned listener=%v err=%v", name, ln != nil, err), nil)
+					return
+				}
+				interesting = true
+			}
+		}
 		for _, name := range regNames {
 			register(name)
 		}
@@ -150,7 +164,6 @@ func TestProp_Routing(t *testing.T) {
 		}
 		var specs []*clientSpec
 		kinds := map[string]bool{}
-		interesting := false
 		var cwg sync.WaitGroup
 		eof := map[int]bool{}
 		var emu sync.Mutex
